@@ -139,6 +139,62 @@ Section Rfc.
     intros svs types scopes. induction svs as [|sv r IH]; simpl; auto.
     rewrite matches_filter_ret, IH. destruct (matchesb _ _ _ _ _ sv); reflexivity.
   Qed.
+  (* ------------------------------------------------------------ an unsupported rule matches nothing, at every level *)
+  Lemma any_entry_other : forall fixed mb u es, is_rfc M mb = false -> is_strcmp M mb = false ->
+    any_entry M fixed split mb u es = Ret false.
+  Proof. intros fixed mb u es H1 H2. induction es as [|e r IH]; simpl; auto. now rewrite match_scope_other by auto. Qed.
+
+  Lemma scope_in_list_other : forall fixed mb u srv, is_rfc M mb = false -> is_strcmp M mb = false ->
+    scope_in_list M fixed split mb u srv = Ret false.
+  Proof. intros fixed mb u [es|] H1 H2; simpl; auto using any_entry_other. Qed.
+
+  Lemma matches_filter_other : forall fixed sv types mb u us, is_rfc M mb = false -> is_strcmp M mb = false ->
+    matches_filter M fixed split sv types (Some (mb, u :: us)) = Ret false.
+  Proof.
+    intros fixed sv types mb u us H1 H2. unfold matches_filter. destruct (types_ok types sv); auto.
+    simpl. now rewrite scope_in_list_other by auto.
+  Qed.
+
+  Lemma filter_services_other : forall fixed svs types mb u us, is_rfc M mb = false -> is_strcmp M mb = false ->
+    filter_services M fixed split svs types (Some (mb, u :: us)) = Ret [].
+  Proof.
+    intros fixed svs types mb u us H1 H2. induction svs as [|sv r IH]; auto.
+    cbn [filter_services]. now rewrite matches_filter_other, IH by auto.
+  Qed.
+
+  (* ------------------------------------------------------------ a text that is not a well-formed URI matches nothing under the RFC rule *)
+  Lemma match_rfc_err : forall my other, split my = SplitErr \/ split other = SplitErr ->
+    match_rfc true split my other = Ret false.
+  Proof.
+    intros my other [H|H]; unfold match_rfc.
+    - now rewrite H.
+    - destruct (split my); auto. now rewrite H.
+  Qed.
+
+  Lemma match_scope_malformed : forall mb a b, is_rfc M mb = true -> split a = SplitErr \/ split b = SplitErr ->
+    match_scope M true split mb a b = Ret false.
+  Proof. intros. rewrite match_scope_rfc by auto. now apply match_rfc_err. Qed.
+
+  Lemma existsb_all_false : forall (A : Type) (f : A -> bool) l, (forall x, f x = false) -> existsb f l = false.
+  Proof. intros A f l H. induction l as [|x r IH]; simpl; auto. now rewrite H. Qed.
+
+  (* ------------------------------------------------------------ identical text: the verdict is decided by the rule alone *)
+  Theorem identical_text_by_rule : forall mb u es, In u es ->
+    scope_in_list M true split mb u (Some es) =
+    Ret (if is_rfc M mb then negb (is_err (split u)) else is_strcmp M mb).
+  Proof.
+    intros mb u es Hin. cbn [scope_in_list]. rewrite any_entry_ret. f_equal.
+    destruct (is_rfc M mb) eqn:R.
+    - destruct (split u) eqn:S; cbn [is_err negb].
+      + apply existsb_all_false. intros e. unfold scope_matchesb.
+        now rewrite match_scope_malformed by auto.
+      + apply existsb_exists. exists u. split; auto. unfold scope_matchesb.
+        rewrite match_scope_rfc, match_rfc_refl by (auto; congruence). reflexivity.
+    - destruct (is_strcmp M mb) eqn:C.
+      + apply existsb_exists. exists u. split; auto. unfold scope_matchesb.
+        rewrite match_scope_strcmp by auto. apply bytes_eqb_refl.
+      + apply existsb_all_false. intros e. unfold scope_matchesb. now rewrite match_scope_other by auto.
+  Qed.
 End Rfc.
 
 (* ================================================================ urlsplit reads a well-formed URI record back *)
